@@ -120,6 +120,16 @@ Theorem C06_throw_leaves_valid_container : forall st, WInv st ->
 Proof. exact throw_leaves_valid_container. Qed.
 Print Assumptions C06_throw_leaves_valid_container.
 
+(* the element constructor invoked with the arguments of emplace_back / emplace throws (operations OEmplaceBackCtorThrows,
+   OEmplaceCtorThrows of `op`, covered by all theorems above): the container is exactly as before.  That every element
+   object is still alive and destroyed exactly once afterwards is exercised by the driver only (live set + trap) *)
+Theorem C06_constructor_throw_leaves_container_unchanged : forall st key,
+  fst (emplace_back_ctor_throws st) = st /\ fst (emplace_ctor_throws key st) = st /\
+  (size st < cap st -> snd (emplace_back_ctor_throws st) = Faulted) /\
+  (size st < cap st -> key <= size st -> snd (emplace_ctor_throws key st) = Faulted).
+Proof. exact ctor_throw_unchanged. Qed.
+Print Assumptions C06_constructor_throw_leaves_container_unchanged.
+
 (* "Inv after a throw at ANY position" is false of the faithful model when element moves really move:
    a throw after the first move of the shifting loop leaves a moved-from element inside the live range *)
 Theorem C06_inv_after_throw_refuted :
